@@ -789,6 +789,7 @@ static long do_call(jv *c, jv **extra)
       Hpid[h] = newpid;
       int pi = sk_proc_by_pid(newpid);
       if (pi > 0) K->proc[pi].term = (int) j_int(c, "term", TERM_IGN);
+      if (pi > 0) K->proc[pi].killfail = (int) j_int(c, "kf", 0);
       long in = j_int(o, "input", -1);
       if (in > 0) woff[h] += in;
     }
